@@ -1444,11 +1444,16 @@ def stream_unitpy(c, N):
     for v in vals:
         for un in ['m', 'km', 'N', 's2', '/s', '2m']:
             c.case(('dumps', v, un), nontrivial=True)
+            txt = back = err = None
+            try: B = U[un]
+            except ValueError:
+                if un[0].isdigit(): c.count('unitpy:numeral-unit-rejected'); continue
+                raise
             try:
-                txt = U[un].__stringly_dumps__(v)
-                back = U[un].__stringly_loads__(txt); err = None
+                txt = B.__stringly_dumps__(v)
+                back = B.__stringly_loads__(txt)
             except Exception as e:
-                txt = locals().get('txt'); back = None; err = e
+                err = e
             uval = U._parse(un).value
             num = txt[:len(txt) - len(un)] if txt else None
             okfmt = num is not None and re.fullmatch(r'-?[0-9]+(\.[0-9]+)?', num) is not None and Decimal(num) == Decimal(repr(v / uval))
